@@ -7,7 +7,7 @@ See DESIGN.md section 5 / C01.
 from fractions import Fraction
 
 from ..sim import ops as opsmod
-from ..sim.bench import Session, ShapeChanged, digest_events
+from ..sim.bench import Session, ShapeChanged, digest_events, raised_in_sut
 from ..sim.gen import Gen
 from ..sim.geom import dec, frac
 from ..sim.robot import DecodeError, Robot
@@ -153,6 +153,11 @@ def execute(world, opsource):
         except ShapeChanged as e:
             fail("C01.volume", len(res.ops) - 1, res.ops[-1] if res.ops else None, "ok",
                  f"Labware.volumes of labware {e.args[0]} has shape {e.args[1]}")
+        except Exception as e:  # noqa
+            if not raised_in_sut(e):
+                raise
+            fail("C01.observe", len(res.ops) - 1, res.ops[-1] if res.ops else None, "ok",
+                 f"observing the labware raised {type(e).__name__} inside robotools")
         # ---- the file the robot actually gets
         recs = sess.records()
         last = len(res.ops) - 1
